@@ -26,16 +26,19 @@ type KeyedMutex[T comparable] struct {
 
 func (km *KeyedMutex[T]) LockKey(key T) {
 	m, _ := km.m.LoadOrStore(key, &sync.Mutex{})
+	verifYieldObj("KeyedMutex.LockKey", m)
 	m.Lock()
 }
 
 func (km *KeyedMutex[T]) TryLockKey(key T) bool {
 	m, _ := km.m.LoadOrStore(key, &sync.Mutex{})
+	verifYieldObj("KeyedMutex.TryLockKey", m)
 	return m.TryLock()
 }
 
 func (km *KeyedMutex[T]) UnlockKey(key T) {
 	m, _ := km.m.LoadOrStore(key, &sync.Mutex{})
+	verifYieldObj("KeyedMutex.UnlockKey", m)
 	m.Unlock()
 }
 
@@ -57,31 +60,37 @@ type KeyedRWMutex[T comparable] struct {
 
 func (km *KeyedRWMutex[T]) LockKey(key T) {
 	m, _ := km.m.LoadOrStore(key, &sync.RWMutex{})
+	verifYieldObj("KeyedRWMutex.LockKey", m)
 	m.Lock()
 }
 
 func (km *KeyedRWMutex[T]) TryLockKey(key T) bool {
 	m, _ := km.m.LoadOrStore(key, &sync.RWMutex{})
+	verifYieldObj("KeyedRWMutex.TryLockKey", m)
 	return m.TryLock()
 }
 
 func (km *KeyedRWMutex[T]) UnlockKey(key T) {
 	m, _ := km.m.LoadOrStore(key, &sync.RWMutex{})
+	verifYieldObj("KeyedRWMutex.UnlockKey", m)
 	m.Unlock()
 }
 
 func (km *KeyedRWMutex[T]) RLockKey(key T) {
 	m, _ := km.m.LoadOrStore(key, &sync.RWMutex{})
+	verifYieldObj("KeyedRWMutex.RLockKey", m)
 	m.RLock()
 }
 
 func (km *KeyedRWMutex[T]) TryRLockKey(key T) bool {
 	m, _ := km.m.LoadOrStore(key, &sync.RWMutex{})
+	verifYieldObj("KeyedRWMutex.TryRLockKey", m)
 	return m.TryRLock()
 }
 
 func (km *KeyedRWMutex[T]) RUnlockKey(key T) {
 	m, _ := km.m.LoadOrStore(key, &sync.RWMutex{})
+	verifYieldObj("KeyedRWMutex.RUnlockKey", m)
 	m.RUnlock()
 }
 
